@@ -1049,7 +1049,7 @@ def run(chk):
         "non-trivial = the implementation returned a tree or a typed failure (not a crash)."
     )
     chk.trusted += [
-        "hand model coq/model/Parser.v (lexer, recursive-descent parser, validation, deparse) tied to expression/_parser.py + ast.py by correspondence only",
+        "hand model coq/model/Parser.v: lexer, recursive-descent parser, validation tied to expression/_parser.py (parsita combinators: not translatable) by correspondence only; deparse by regeneration + equivalence proof (TIE deparse)",
         "hand model coq/model/FormatParser.v tied to format/_parser.py + _format.py by correspondence only",
         "parsita's combinator semantics (longest alternative, repetition backtracking, conversion before end-of-input) as modelled",
         "literal codec: Python int()/float()/str() on literal spellings; floats compared as the exact decimal of repr(float)",
